@@ -87,21 +87,32 @@ Theorem C14_expire_queue_sound : forall s h id, id ∈ g_qexp (begin_block s h) 
 Proof. exact expire_queue_sound. Qed.
 Print Assumptions C14_expire_queue_sound.
 
-(* ... but "a proposal expires only after its voting deadline" is false of the faithful model: EXPIRE_VOTES is
-   also accepted as a public transaction and checks neither stage nor deadline.  Here a proposal in its
-   FUNDING stage (deadline 5) is failed with outcome insufficientVotes at height 1 by an operation that
-   carries no authority at all.  Known finding C14.public_expire_votes (trigger [trig_public_expire]). *)
-Theorem C14_expiry_after_deadline_refuted : exists ts t id,
-  trig_public_expire t = true /\
-  let s := (run init ts).1 in let s' := (step s t).1.1 in
-  p_status <$> (g_props s !! id) = Some StFunding /\
-  (fun p => g_h s <=? p_fdl p) <$> (g_props s !! id) = Some true /\
-  p_outcome <$> (g_props s' !! id) = Some OInsufVotes /\ p_store <$> (g_props s' !! id) = Some SFailed.
-Proof.
-  exists [wtx (OAdjust 1%N 100) []; wtx (OBegin 1) []; wtx (OCreate 0%N TGeneral 1%N 5 5 10 10 51 true) []],
-         (wtx (OExpire 0%N) []), 0%N.
-  vm_compute. repeat split; reflexivity.
-Qed.
+(* ... and, since /repo 0988205 (runExpireVotes requires the voting stage and a passed voting deadline; the kind is
+   still in the public router), the FULL statement holds: along every history, whatever the next operation is
+   (any kind, any sender, any height, any inputs, including the public EXPIRE_VOTES and the EndBlock queues), a
+   proposal acquires the outcome insufficientVotes only if, before that operation, it was in its voting stage
+   with its voting deadline behind the current height. *)
+Theorem C14_expiry_after_deadline : forall ts t id p',
+  let s := (run init ts).1 in
+  g_props (step s t).1.1 !! id = Some p' -> p_outcome p' = OInsufVotes ->
+  exists p, g_props s !! id = Some p /\
+    (p_outcome p = OInsufVotes \/ (p_store p = SActive /\ p_status p = StVoting /\ p_vdl p < g_h s)).
+Proof. exact expiry_after_deadline. Qed.
+Print Assumptions C14_expiry_after_deadline.
+
+(* the former witness of the finding C14.public_expire_votes (fixed), now an example of the repaired behaviour:
+   a public EXPIRE_VOTES on a proposal in its FUNDING stage (deadline 5) at height 1 is refused and changes nothing;
+   on a voting proposal it is refused until the voting deadline (6) is behind the height, then it succeeds *)
+Example C14_public_expire_repaired :
+  let ts := [wtx (OAdjust 1%N 100) []; wtx (OBegin 1) []; wtx (OCreate 0%N TGeneral 1%N 5 5 10 10 51 true) []] in
+  let s := (run init ts).1 in
+  trig_public_expire (wtx (OExpire 0%N) []) = true /\
+  (step s (wtx (OExpire 0%N) [])).1.2 = false /\ (step s (wtx (OExpire 0%N) [])).1.1 = s /\
+  let s2 := (run s [wtx (OFund 0%N 1%N 5) []; wtx OEnd []; wtx (OBegin 6) []]).1 in
+  (step s2 (wtx (OExpire 0%N) [])).1.2 = false /\
+  let s3 := (run s2 [wtx OEnd []; wtx (OBegin 7) []; wtx (OExpire 0%N) []]).1 in
+  p_outcome <$> (g_props s3 !! 0%N) = Some OInsufVotes /\ p_store <$> (g_props s3 !! 0%N) = Some SFailed.
+Proof. vm_compute. repeat split; reflexivity. Qed.
 
 (* ---- (4) pass / fail only per the tally of the snapshot; a vote changes one opinion, never a power ---- *)
 Theorem C14_pass_fail_per_tally : forall s e id v o s' ev p p',
@@ -120,18 +131,48 @@ Theorem C14_vote_keeps_snapshot_powers : forall v o vs vs', vote_update v o vs =
   map (fun x => (v_val x, v_power x)) vs' = map (fun x => (v_val x, v_power x)) vs.
 Proof. exact vote_update_powers. Qed.
 
-(* ---- (5) a configuration change is emitted only when a configuration proposal whose recorded votes pass is
-   finalised, and at most once: the emitting step leaves the proposal in the last stage, where finalisation is
-   a no-op without events (and by (1) it stays there) ---- *)
-Theorem C14_config_only_for_passed : forall s e id s' ev id', h_finalize s e id = Some (s', ev) -> EvConfig id' ∈ ev ->
+(* ---- (5) a configuration change is emitted only when a configuration proposal whose recorded votes pass (under the
+   proposal's own percentage) is finalised, and at most once: afterwards finalisation is a no-op without events ---- *)
+Theorem C14_config_only_when_votes_pass : forall s e id s' ev id', h_finalize s e id = Some (s', ev) -> EvConfig id' ∈ ev ->
   id' = id /\ exists p, g_props s !! id = Some p /\ p_type p = TConfig /\
     (p_store p = SPassed \/ p_store p = SFailed) /\ p_extra p < 8 /\
-    tally (p_votes p) (p_pass p) = RPassed /\ rank_of s' id = 4%nat.
+    tally (p_votes p) (p_pass p) = RPassed /\ (p_store p = SPassed -> rank_of s' id = 4%nat).
 Proof. exact config_event_sound. Qed.
-Print Assumptions C14_config_only_for_passed.
+Print Assumptions C14_config_only_when_votes_pass.
+
+(* "only for a PASSED proposal": holds unless the proposal is in the failed store with votes that pass under its own
+   percentage (complement of [trig_failed_but_passing]) ... *)
+Theorem C14_config_only_for_passed_partial : forall s e id s' ev id' p,
+  h_finalize s e id = Some (s', ev) -> EvConfig id' ∈ ev -> g_props s !! id = Some p ->
+  trig_failed_but_passing p = false ->
+  id' = id /\ p_store p = SPassed /\ p_outcome p = p_outcome p /\ rank_of s' id = 4%nat.
+Proof. exact config_only_passed_partial. Qed.
+Print Assumptions C14_config_only_for_passed_partial.
+
+(* ... and the full statement is false of the faithful model: the vote handler decides pass / fail with the CURRENT
+   option percentage, finalisation recomputes the tally with the proposal's OWN percentage.  Here the option was
+   raised from 51 to 80 while proposal 0 was in its voting stage: votes yes(100) yes(100) no(100) make it FAILED
+   (outcome completedNo, failed store); the next block's finalisation finds that 66% >= 51%, applies its
+   configuration update, pays the PASSED distribution and leaves the id in the failed AND the finalized store.
+   Known finding C14.pass_percentage_drift. *)
+Definition wopts80 : opts := mkOpts 1 10 5 80 (mkDist 180000 180000 100000 180000 180000) (mkDist 180000 180000 100000 180000 180000).
+Definition wenv3 (o : opts) : env := mkEnv o o o [(10%N, 100); (11%N, 100); (12%N, 100)] [10%N; 11%N; 12%N] 13%N 14%N [] [].
+Definition wtx3 (o : opts) (x : op) : txop := mkTx x (wenv3 o) 0%N 0.
+Definition w_drift : list txop :=
+  [wtx3 wopts (OAdjust 1%N 100); wtx3 wopts (OAdjust 2%N 100);
+   wtx3 wopts (OBegin 1); wtx3 wopts (OCreate 0%N TConfig 1%N 5 5 10 10 51 true); wtx3 wopts (OFund 0%N 2%N 5); wtx3 wopts OEnd;
+   wtx3 wopts80 (OBegin 2); wtx3 wopts80 (OVote 0%N 10%N OpYes); wtx3 wopts80 (OVote 0%N 11%N OpYes);
+   wtx3 wopts80 (OVote 0%N 12%N OpNo); wtx3 wopts80 OEnd; wtx3 wopts80 (OBegin 3)].
+Theorem C14_config_only_for_passed_refuted : exists ts t id,
+  let s := (run init ts).1 in
+  (fun p => (trig_failed_but_passing p, p_store p, p_outcome p)) <$> (g_props s !! id) = Some (true, SFailed, OCompletedNo) /\
+  (step s t).2 = [EvConfig id; EvDistrib id 8 10] /\
+  (fun p => (p_store p, p_outcome p, p_extra p)) <$> (g_props (step s t).1.1 !! id) = Some (SFailed, OCompletedNo, 8) /\
+  g_applied (step s t).1.1 = [id].
+Proof. exists w_drift, (wtx3 wopts80 OEnd), 0%N. vm_compute. repeat split; reflexivity. Qed.
 
 Theorem C14_config_at_most_once : forall s e id p, g_props s !! id = Some p ->
-  p_store p = SFinalized \/ p_store p = SFinFailed -> h_finalize s e id = Some (s, []).
+  p_store p = SFinalized \/ p_store p = SFinFailed \/ 8 <= p_extra p -> h_finalize s e id = Some (s, []).
 Proof. exact finalize_terminal_noop. Qed.
 
 (* ---- (6) funds ---- *)
@@ -144,6 +185,54 @@ Theorem C14_refund_exact : forall s id f amt ben s' ev p,
     (refundable (p_outcome p) = false -> p_total p < p_goal p /\ p_fdl p < g_h s).
 Proof. exact withdraw_refund_exact. Qed.
 Print Assumptions C14_refund_exact.
+
+(* "returned in full": a funder of a cancelled / goal-missed proposal can withdraw their whole record, provided the
+   recorded total still covers it.  Without that guard the statement is false of the faithful model: anybody can
+   contribute a NEGATIVE amount (Validate checks the currency, not the sign; CheckTx 0, DeliverTx 0), which pays
+   the sender out of the proposal's pool and leaves the honest funders' records uncovered.
+   Known finding C14.negative_fund_amount (trigger [trig_negative_amount]). *)
+Theorem C14_refund_in_full_partial : forall s id f ben p cur,
+  g_props s !! id = Some p -> refundable (p_outcome p) = true -> funded_visible (g_blk s) p f = true ->
+  alookup f (p_indiv p) = Some cur -> cur <= p_total p ->
+  exists s', h_withdraw s id f cur ben = Some (s', [EvRefund id f ben cur]).
+Proof. exact refund_available. Qed.
+Print Assumptions C14_refund_in_full_partial.
+
+(* history level: along every history of non-negative contributions ([nonneg_op], complement of the trigger
+   C14.negative_fund_amount for contributions) in which every distribution deleted every funder record ([nokeep],
+   complement of C14.stale_fund_records), the recorded total of every proposal is the sum of its non-negative
+   funder records; hence a funder of a cancelled / goal-missed proposal can always withdraw the whole record *)
+Theorem C14_refund_in_full_history_partial : forall ts id f ben p cur,
+  Forall nokeep ts -> Forall nonneg_op ts ->
+  let s := (run init ts).1 in
+  g_props s !! id = Some p -> refundable (p_outcome p) = true -> funded_visible (g_blk s) p f = true ->
+  alookup f (p_indiv p) = Some cur ->
+  0 <= cur /\ exists s', h_withdraw s id f cur ben = Some (s', [EvRefund id f ben cur]).
+Proof. exact refund_in_full. Qed.
+Print Assumptions C14_refund_in_full_history_partial.
+
+Theorem C14_funds_invariant_partial : forall ts, Forall nokeep ts -> Forall nonneg_op ts ->
+  forall id p, g_props (run init ts).1 !! id = Some p ->
+  Forall (fun kv => 0 <= kv.2) (p_indiv p) /\ p_total p = asum (p_indiv p).
+Proof.
+  intros ts Hk Hn id p H. refine (run_funds ts init Hk Hn _ id p H).
+  intros i q Hq. unfold init in Hq. simpl in Hq. rewrite lookup_empty in Hq. discriminate.
+Qed.
+Print Assumptions C14_funds_invariant_partial.
+
+Theorem C14_refund_in_full_refuted : exists ts,
+  existsb trig_negative_amount ts = true /\
+  let s := (run init ts).1 in
+  (* proposal 0 is cancelled, funder 1 has a committed record of 5, yet cannot withdraw it; account 2 was paid 5 *)
+  (fun p => (refundable (p_outcome p), funded_visible (g_blk s) p 1%N, alookup 1%N (p_indiv p), p_total p))
+     <$> (g_props s !! 0%N) = Some (true, true, Some 5, 0) /\
+  h_withdraw s 0%N 1%N 5 1%N = None /\ bal s 2%N = 105.
+Proof.
+  exists [wtx (OAdjust 1%N 100) []; wtx (OAdjust 2%N 100) [];
+          wtx (OBegin 1) []; wtx (OCreate 0%N TGeneral 1%N 5 5 10 10 51 true) []; wtx OEnd [];
+          wtx (OBegin 2) []; wtx (OFund 0%N 2%N (-5)) []; wtx (OCancel 0%N 1%N) []; wtx OEnd []; wtx (OBegin 3) []].
+  vm_compute. repeat split; reflexivity.
+Qed.
 
 Theorem C14_distribution_within_total : forall s e id p d s' paid bad,
   distribute s e id p d = (s', paid, bad) -> e_vals e <> [] -> 0 <= p_total p -> 0 <= d_burn d ->
